@@ -4,7 +4,9 @@ import (
 	"io"
 	"net/http"
 
+	"reservoir/proxy/certs"
 	"reservoir/proxy/responder"
+	"time"
 )
 
 // C10: each exchange on a CONNECT tunnel depends only on its own request and equals plain
@@ -16,6 +18,7 @@ type exchange struct {
 	path    string
 	rng     string
 	reqBody bool // the request carries a body (always for POST; for the same-resource exchange by choice)
+	connClose bool // ... and announces "Connection: close" (the tunnel loop goes on reading all the same)
 	resp    originResp
 }
 
@@ -51,8 +54,11 @@ func (x exchange) request() *http.Request {
 	}
 	r := newReq(x.method, "o.test", x.path, "", h)
 	if x.reqBody {
-		r.Body = &bodyReader{data: []byte("rq"), failAt: -1}
+		r.Body = &bodyReader{data: []byte("rq"), failAt: -1, closing: x.connClose}
 		r.ContentLength = 2
+		if x.connClose {
+			r.Header["Connection"] = []string{"close"}
+		}
 	}
 	return r
 }
@@ -82,6 +88,7 @@ func HarnessTunnelIsolation() {
 			x2.rng = "bytes=0-0"
 		}
 		x2.reqBody = x2.method == "POST" || symChoice(2) == 1 // also a GET / HEAD with a body (answered from the store)
+		x2.connClose = x2.reqBody && symChoice(2) == 1
 		vReach("same-resource")
 	} else {
 		x2 = symExchange("two")
@@ -148,5 +155,33 @@ func HarnessTunnelManyBytes() {
 	vAssert(len(s.caps) == n+1, "c10.later-exchange-on-the-tunnel-unanswered")
 	for k := 1; k < len(s.caps); k++ {
 		vAssert(s.caps[k].status == 200 && string(s.caps[k].body) == "ok", "c10.later-exchange-on-the-tunnel-differs")
+	}
+}
+
+// HarnessPresentedCertAcrossExpiry (C11: "the client is presented a certificate that ... is
+// inside its validity period ... replaced once expired", observed at the TLS server
+// configuration of handleCONNECT): tunnels to one target are opened at arbitrary times, also
+// more than the certificates' lifetime apart; what each tunnel's TLS server would present is a
+// certificate for that host that is valid at that moment.
+func HarnessPresentedCertAcrossExpiry() {
+	e := newEnv(backendMem, 1<<30)
+	e.p.ca = certs.VNewTestCA()
+	e.o.script = []originResp{{status: 200, header: hdr("Cache-Control", "no-store"), body: []byte("ok")}}
+	n := vParam("tunnels", 3)
+	for k := 0; k < n; k++ {
+		vClockFreeze(false)
+		now := time.Now() // symbolic, non-decreasing: any gap, also beyond 240 h
+		vClockFreeze(true)
+		c := e.tunnelOne(newReq("GET", "o.test", "/p", "", nil))
+		vAssert(c.answered && c.status == 200, "c11.tunnel-not-served")
+		leaf := vPresentedLeaf()
+		vAssert(leaf != nil, "c11.no-cert-for-valid-target")
+		if leaf == nil {
+			return
+		}
+		vReach("presented")
+		vAssert(len(leaf.DNSNames) == 1 && leaf.DNSNames[0] == "o.test", "c11.san-not-exactly-the-host")
+		// x509 validity is inclusive at both ends
+		vAssert(!leaf.NotBefore.After(now) && !now.After(leaf.NotAfter), "c11.expired-cert-served")
 	}
 }
